@@ -24,6 +24,7 @@ out="$(cd /verif && VERIF_REPO="$WT/v8" ./check "$ID" "$TIER" 2>&1)"; rc=$?
 sig="$(echo "$out" | grep -m1 'sig=' | sed 's/^ *//')"
 case $rc in 1) verdict=caught;; 0) verdict=missed;; *) verdict=inconclusive;; esac
 echo "check $ID $TIER: exit=$rc $verdict $sig"
+[ -z "${CONFIRM_NO_WRITE:-}" ] || exit 0   # measuring only: leave seeded/ and regress/ as they are
 D="/verif/seeded/$ID-$SLUG"; mkdir -p "$D"
 rp="$(echo "$out" | grep -m1 '^VIOLATION' | sed 's/.*replay=//')"
 if [ -n "$rp" ] && [ -f "$rp" ]; then
